@@ -1087,28 +1087,9 @@ def oracle_dc(case, obs):
 
 
 # ---- known findings --------------------------------------------------------------------------
-def base_scrape_leaks(case):
-    """cause predicate: a derived hand-written class without declared labels, used after its base class,
-    whose base declares none either and has a single return statement that yields labels"""
-    b = case.get("base")
-    if case.get("kind") != "fn" or case.get("via") != "class" or not b or not case.get("base_first"):
-        return False
-    if case["declared"] is not None or b["declared"] is not None:
-        return False
-    if any(p["name"] in INIT_KEYWORDS + RUN_KEYWORDS for p in b["params"]):
-        return False
-    return expected_labels({**b, "via": "call", "base": None}) is not None
-
-
 def known(case, obs, verdict):
-    """attribute an oracle failure to a recorded finding by its cause predicate over the CASE"""
-    sig = verdict.split(":")[0]
-    if case.get("kind") == "multi":
-        import re
-        m = re.search(r"\[node (\d+)\]", verdict)
-        return known(case["cases"][int(m.group(1))], obs[int(m.group(1))], verdict) if m else None
-    if sig in ("output-labels", "class-rejected", "class-accepted") and base_scrape_leaks(case):
-        return "C17-scraped-labels-leak-to-subclass"
+    """no open finding: every oracle failure is a violation (the former defects are regression cases in
+    corpus/C17/witnesses.json)"""
     return None
 
 
